@@ -7,4 +7,6 @@ require (
 	golang.org/x/sys v0.8.0
 )
 
+require github.com/rivo/uniseg v0.4.4 // indirect
+
 replace github.com/reeflective/readline => /repo
